@@ -1454,6 +1454,16 @@ class FnTranslator:
     def call_stmt(self, n, blk):
         f = n.func
         if isinstance(f, ast.Attribute) and isinstance(f.value, ast.Name) and f.value.id == "LOGGER":
+            # a logging call is dropped only if evaluating its arguments cannot change anything or raise anything the model would see:
+            # constants and f-strings over plain names / attribute reads / subscripts / arithmetic — no assignment expression, no call,
+            # no comprehension, no await / yield / lambda (audit round 4, A3: a walrus inside a dropped f-string)
+            if f.attr not in ("info", "debug", "warning", "error") or n.keywords:
+                raise Untranslatable(f"logging call {ast.unparse(n)[:60]}")
+            for a in n.args:
+                for sub in ast.walk(a):
+                    if isinstance(sub, (ast.NamedExpr, ast.Call, ast.Await, ast.Yield, ast.YieldFrom, ast.Lambda, ast.ListComp, ast.SetComp,
+                                        ast.DictComp, ast.GeneratorExp, ast.Starred)):
+                        raise Untranslatable(f"logging argument with a possible effect ({type(sub).__name__}): {ast.unparse(a)[:60]}")
             blk.items.append("-- not modelled (logging): " + " ".join(ast.unparse(n).split())[:110])
             return
         if isinstance(f, ast.Name):
